@@ -21,7 +21,7 @@ def sh(cmd, cwd=None, env=ENV, timeout=1500):
 def suite():
     bad = []
     for m in ['duct', 'hseq', 'optics', 'pipe', 'pure', 'trait']:
-        for attempt in range(3):
+        for attempt in range(10):
             rc, out = sh('go test -vet=off -count=1 ./...', cwd=os.path.join(wt, m))
             if rc == 0:
                 break
